@@ -363,8 +363,10 @@ impl Net {
             self.event("connect_refused", 0, dst);
             return Err(std::io::Error::new(std::io::ErrorKind::ConnectionRefused, "unreachable"));
         }
-        let ep = match self.inner.lock().endpoints.get(dst) {
-            Some(e) => e.clone(),
+        // (the guard must be gone before `event` takes the lock again)
+        let found = self.inner.lock().endpoints.get(dst).cloned();
+        let ep = match found {
+            Some(e) => e,
             None => {
                 self.event("connect_nohost", 0, dst);
                 return Err(std::io::Error::new(std::io::ErrorKind::ConnectionRefused, "no such endpoint"));
